@@ -1,5 +1,6 @@
 //! Spec -> code: every case emitted by a TLC model is executed on the real crate and the
 //! observation is checked against the outcome set the specification allows.
+use crate::ctx::*;
 use crate::enc::*;
 use crate::entry::*;
 use crate::guard::guard;
@@ -14,6 +15,7 @@ pub struct Failure {
     pub detail: String,
     pub case: J,
     pub observed: J,
+    pub finding_key: J,
 }
 
 pub struct State {
@@ -108,12 +110,16 @@ impl State {
     }
 
     pub fn fail(&mut self, check: &str, detail: String, case: &J, observed: J) {
+        self.fail_key(check, detail, case, observed, json!(null))
+    }
+
+    pub fn fail_key(&mut self, check: &str, detail: String, case: &J, observed: J, finding_key: J) {
         self.failure_count += 1;
         *self.failure_checks.entry(check.to_string()).or_insert(0) += 1;
         // keep the first failures of every check kind, so that one noisy kind cannot hide another
         let same = self.failures.iter().filter(|f| f.check == check).count();
         if same < self.max_fail {
-            self.failures.push(Failure { check: check.to_string(), detail, case: case.clone(), observed });
+            self.failures.push(Failure { check: check.to_string(), detail, case: case.clone(), observed, finding_key });
         }
     }
 
@@ -122,6 +128,7 @@ impl State {
         let kind = case.get("kind").and_then(|k| k.as_str()).unwrap_or("");
         match kind {
             "parse" => self.run_parse(case),
+            "eval" => self.run_eval(case),
             _ => {
                 self.count("unknown_kind");
             },
@@ -138,7 +145,8 @@ impl State {
             "failure_count": self.failure_count,
             "failure_checks": self.failure_checks,
             "failures": self.failures.iter().map(|f| json!({
-                "check": f.check, "detail": f.detail, "case": f.case, "observed": f.observed})).collect::<Vec<_>>(),
+                "check": f.check, "detail": f.detail, "case": f.case, "observed": f.observed,
+                "finding_key": f.finding_key})).collect::<Vec<_>>(),
             "samples": self.samples,
         })
     }
@@ -258,6 +266,120 @@ impl State {
         }
     }
 
+    // ------------------------------------------------------------------------------------------
+    // kind "eval": one evaluation call on a prescribed context, with the allowed outcome patterns,
+    // the context and the user-function call log afterwards
+    // ------------------------------------------------------------------------------------------
+    fn run_eval(&mut self, case: &J) {
+        let check = case["check"].as_str().unwrap_or("eval").to_string();
+        let src = if case.get("src").is_some() {
+            text_of(&case["src"])
+        } else {
+            case["toks"].as_array().map(|a| a.iter().map(text_of).collect::<Vec<_>>().join(" ")).unwrap_or_default()
+        };
+        let level = case["level"].as_str().unwrap_or("string");
+        let kind = Kind::parse(case["ek"].as_str().unwrap_or("value")).unwrap_or(Kind::Value);
+        let mode = Mode::parse(case["mode"].as_str().unwrap_or("mut")).unwrap_or(Mode::Mut);
+        let exact = case["exact"].as_bool().unwrap_or(false);
+        let det = case["det"].as_bool().unwrap_or(true);
+        self.count(&format!("eval_{check}"));
+        if let Some(t) = case["nontrivial"].as_bool() {
+            if t {
+                self.distinct(&format!("{check}_nontrivial"), case);
+            }
+        } else {
+            self.distinct(&format!("{check}_nontrivial"), case);
+        }
+        let log: Log = Default::default();
+        let ctx = match build_ctx(&case["ctx"], &log) {
+            Ok(c) => c,
+            Err(e) => {
+                self.fail("harness_ctx", format!("cannot build the context of the case: {e}"), case, json!(null));
+                return;
+            },
+        };
+        let mut ctx = ctx;
+        let obs = guard(|| -> Result<V, E> {
+            let tree = if level == "tree" { Some(build_operator_tree::<DefaultNumericTypes>(&src)?) } else { None };
+            match (&mut ctx, &tree) {
+                (Ctx::HashMap(c), None) => call_string(kind, mode, &src, c),
+                (Ctx::HashMap(c), Some(t)) => call_tree(kind, mode, t, c),
+                (Ctx::ReadOnly(c), None) => call_string(kind, mode, &src, c),
+                (Ctx::ReadOnly(c), Some(t)) => call_tree(kind, mode, t, c),
+                (Ctx::Empty(c), None) => call_string_imm(kind, &src, c),
+                (Ctx::Empty(c), Some(t)) => call_tree_imm(kind, t, c),
+                (Ctx::EmptyBuiltin(c), None) => call_string_imm(kind, &src, c),
+                (Ctx::EmptyBuiltin(c), Some(t)) => call_tree_imm(kind, t, c),
+            }
+        });
+        let obs = match obs {
+            Ok(o) => o,
+            Err(p) => {
+                self.fail("panic", format!("{src:?} ({level} {} {}) panicked at {p}", kind.name(), mode.name()), case, json!({"panic": p}));
+                return;
+            },
+        };
+        let fmt = guard(|| match &obs {
+            Ok(v) => format!("{v} {v:?}"),
+            Err(e) => format!("{e} {e:?}"),
+        });
+        if let Err(p) = fmt {
+            self.fail("panic", format!("formatting the result of {src:?} panicked at {p}"), case, json!({"panic": p}));
+        }
+        let pats = case["allowed"].as_array().cloned().unwrap_or_default();
+        let observed = enc_obs(&obs);
+        self.sample(&check, json!({"source": src, "level": level, "entry": format!("{}_{}", kind.name(), mode.name()),
+                                   "context": case["ctx"], "allowed": case["allowed"], "observed": observed}));
+        if !pats.iter().any(|p| matches(p, &obs, exact)) {
+            let fk = case.get("fk").cloned().unwrap_or(json!(null));
+            self.fail_key(
+                &check,
+                format!("{src:?} ({level}-level eval_{}_{}): observed {}, the specification allows {}", kind.name(), mode.name(),
+                        observed["text"].as_str().unwrap_or(""), brief_patterns(&pats)),
+                case,
+                observed.clone(),
+                fk,
+            );
+            return;
+        }
+        if !det {
+            return;
+        }
+        // the context and the call log after the call
+        let hm = match &ctx {
+            Ctx::HashMap(c) => Some(c),
+            Ctx::ReadOnly(c) => Some(&c.inner),
+            _ => None,
+        };
+        if let (Some(c), Some(post)) = (hm, case.get("post")) {
+            let calls: Vec<(String, V)> = log.lock().unwrap().clone();
+            match guard(|| project_hashmap(c, &func_names(&case["ctx"]), &log)) {
+                Ok(Ok(got)) => {
+                    let want = project_spec(post);
+                    if !same_projection(&got, &want) {
+                        self.fail(&check, format!("{src:?}: context afterwards {got}, the specification says {want}"), case,
+                                  json!({"post": got}));
+                    }
+                },
+                Ok(Err(e)) => self.fail(&check, format!("{src:?}: inconsistent context listing: {e}"), case, json!(null)),
+                Err(p) => self.fail("panic", format!("{src:?}: context projection panicked at {p}"), case, json!({"panic": p})),
+            }
+            if let Some(want_log) = case.get("log").and_then(|l| l.as_array()) {
+                let same = want_log.len() == calls.len()
+                    && want_log.iter().zip(calls.iter()).all(|(w, (n, a))| {
+                        text_of(&w["n"]) == *n && dec_value(&w["a"]).map(|x| same_value(&x, a)).unwrap_or(false)
+                    });
+                if !same {
+                    let got: Vec<String> = calls.iter().map(|(n, a)| format!("{n}({a})")).collect();
+                    let want: Vec<String> =
+                        want_log.iter().map(|w| format!("{}({})", text_of(&w["n"]), dec_value(&w["a"]).map(|v| v.to_string()).unwrap_or_default())).collect();
+                    self.fail(&check, format!("{src:?}: user-function calls {got:?}, the specification says {want:?}"), case,
+                              json!({"log": got}));
+                }
+            }
+        }
+    }
+
     /// C14: the ten identifier iterators against the occurrence list of the specification.
     fn check_occurrences(&mut self, case: &J, src: &str, tree: &Tree) {
         let occ: Vec<(String, String)> = case["occ"]
@@ -328,6 +450,60 @@ impl State {
                 );
             }
         }
+    }
+}
+
+/// Does the observation match an outcome pattern of the specification (Api.tla)?
+pub fn matches(pat: &J, obs: &Result<V, E>, exact: bool) -> bool {
+    match pat["p"].as_str().unwrap_or("") {
+        "any" => true,
+        "anyerr" => obs.is_err(),
+        "val" => match (obs, dec_value(&pat["v"])) {
+            (Ok(v), Some(w)) => same_value(v, &w),
+            _ => false,
+        },
+        "err" => match obs {
+            Err(e) => {
+                let got = enc_error(e);
+                let want = &pat["e"];
+                let (gn, wn) = (got["e"].as_str().unwrap_or(""), want["e"].as_str().unwrap_or(""));
+                if !exact {
+                    return err_class(gn) == err_class(wn);
+                }
+                let vals = |k: &str| match (dec_value(&got[k]), dec_value(&want[k])) {
+                    (Some(a), Some(b)) => same_value(&a, &b),
+                    _ => false,
+                };
+                let loose_text = matches!(wn, "WrongTypeCombination" | "WrongFunctionArgumentAmount" | "UnmatchedPartialToken");
+                gn == wn
+                    && vals("a")
+                    && vals("b")
+                    && (loose_text || got["n"] == want["n"])
+                    && got["x"] == want["x"]
+                    && got["y"] == want["y"]
+                    && got["ts"] == want["ts"]
+            },
+            _ => false,
+        },
+        _ => false,
+    }
+}
+
+pub fn brief_patterns(pats: &[J]) -> String {
+    pats.iter()
+        .map(|p| match p["p"].as_str().unwrap_or("") {
+            "val" => dec_value(&p["v"]).map(|v| format!("{v:?}")).unwrap_or_default(),
+            "err" => format!("Err({})", p["e"]["e"].as_str().unwrap_or("")),
+            other => other.to_string(),
+        })
+        .collect::<Vec<_>>()
+        .join(" | ")
+}
+
+pub fn enc_obs(obs: &Result<V, E>) -> J {
+    match obs {
+        Ok(v) => json!({"ok": true, "v": enc_value(v), "text": format!("{v:?}")}),
+        Err(e) => json!({"ok": false, "e": enc_error(e), "text": format!("{e:?}")}),
     }
 }
 
